@@ -120,6 +120,8 @@ structure St where
   nRejected : Nat := 0
   nSerSkip : Nat := 0
   fp : List String := []
+  avoidKnown : Bool := false    -- per-finding avoid switch: do not judge the known unhashed copy-source fields
+  nKnownSkipped : Nat := 0
   skipSer : List String := []   -- serializers whose base round trip is already broken (reported once)
 
 def St.addDiv (s : St) (m : String) : St := if s.div.length < 20 then { s with div := s.div ++ [m] } else s
@@ -265,7 +267,11 @@ def handleM (s : St) (toks : List String) : St := Id.run do
         let (ed, ml) := addOracle s.ed s.ml r mt
         let log := base.set p e
         let fields := ps.map (·.1)
-        let must := fields.any listedField
+        -- the copy-source finding is exhibited by the directed case 0 only; elsewhere it is switched off so
+        -- that every other case stays free of known violations (its tie divergences then count)
+        let knownOnly := s.avoidKnown && fields.all fun f => f == "Log.Resource.SourceBucket" || f == "Log.Resource.SourceKey"
+        if knownOnly then s := { s with nKnownSkipped := s.nKnownSkipped + 1 }
+        let must := fields.any listedField && !knownOnly
         let sig := match fields with
           | [f] => s!"C27.unhashed-field.{lastComponent f}"
           | _ => "C27.rehashed-change-accepted"
@@ -306,8 +312,8 @@ def handleM (s : St) (toks : List String) : St := Id.run do
     | _ => return s.addDiv s!"unknown-mutation:{desc.headD "?"}"
   | _ => return s.addDiv "unparsable-mutation-line"
 
-def judgeCase (_k : Nat) (lines : List String) : Verdict := Id.run do
-  let mut s : St := {}
+def judgeCase (k : Nat) (lines : List String) : Verdict := Id.run do
+  let mut s : St := { avoidKnown := k != 0 }
   for l in lines do
     match tokens l with
     | "e" :: rest => s := handleE s rest
@@ -322,7 +328,8 @@ def judgeCase (_k : Nat) (lines : List String) : Verdict := Id.run do
     fingerprint := fpLines (s.fp ++ [toString nm]),
     stats := [("entries", s.ents.size), ("mutations_field", s.nChg), ("mutations_structural", s.nStruct),
       ("rejected_as_demanded", s.nRejected), ("accepted_exempt_or_unlisted", s.nAcceptedExempt),
-      ("serializer_errors_skipped", s.nSerSkip)],
+      ("serializer_errors_skipped", s.nSerSkip),
+      ("known_copy_source_mutations_not_judged", s.nKnownSkipped)],
     samples := [String.intercalate ";" (s.fp.take 12)]
   }
 
